@@ -57,8 +57,8 @@ func (it *Interp) modelEq(a, b Value) (*smt.Term, bool) {
 }
 
 func (it *Interp) modelIsNil(v Value) (*smt.Term, bool) { return nil, false }
-func (it *Interp) modelLoad(v Value) (Value, bool)       { return nil, false }
-func (it *Interp) modelLen(v Value) (Value, bool)        { return nil, false }
+func (it *Interp) modelLoad(v Value) (Value, bool)      { return nil, false }
+func (it *Interp) modelLen(v Value) (Value, bool)       { return nil, false }
 
 func (it *Interp) modelInvoke(iv IfaceV, m *types.Func, args []Value) (Value, bool) {
 	for _, h := range invokeHooks {
